@@ -302,12 +302,13 @@ theorem refused_only_commit_or_startup (K : GitKernel) (H : Hooks) (hH : WF H) (
 
 /-! ## 5. Non-vacuity: a kernel satisfying F1/F2 tightly, hook programs satisfying `WF`, and what goes wrong without them -/
 
-/-- a git in which every invocation that is NOT `callOk` visibly changes `U` (and fails), every `callOk` one
-    changes `A` only: F2 holds and is tight; F1 holds for every command line. -/
+/-- a git in which every invocation that is NOT `callOk` visibly changes `U` (and fails unless it is a `commit`),
+    every `callOk` one changes `A` only: F2 holds and is tight; F1 holds for every command line. -/
 def tightKernel : GitKernel where
   G := fun argv refs w =>
     if callOk argv refs then ⟨{ w with a := { w.a with objects := argv.headD [] :: w.a.objects } }, 0, []⟩
-    else ⟨{ w with u := { w.u with hookLog := argv.headD [] :: w.u.hookLog } }, 1, argv.headD []⟩
+    else ⟨{ w with u := { w.u with hookLog := argv.headD [] :: w.u.hookLog } },
+          if argv.contains commitWord then 0 else 1, argv.headD []⟩
   indep := fun _ => True
   frame_indep := by
     intro argv u a a' _
